@@ -81,13 +81,21 @@ def run_real(bib, text):
         return f"{type(ex).__name__}: {ex}"
 
 
+_LL = {}
+
+
 def via_middleware(bib, text, key):
     m = bib.middlewares
     M = bib.model
     lib = bib.Library([M.Entry("article", "k", [M.Field(key, text), M.Field("title", "a and b")])])
-    out = m.SeparateCoAuthors(allow_inplace_modification=False).transform(lib)
+    # (long-lived middleware objects for every second text: the answer is a function of the text)
+    if len(text) % 2 and "sep" not in _LL:
+        _LL["sep"], _LL["mrg"] = m.SeparateCoAuthors(allow_inplace_modification=False), m.MergeCoAuthors(allow_inplace_modification=False)
+    sep_mw = _LL["sep"] if len(text) % 2 else m.SeparateCoAuthors(allow_inplace_modification=False)
+    mrg_mw = _LL["mrg"] if len(text) % 2 else m.MergeCoAuthors(allow_inplace_modification=False)
+    out = sep_mw.transform(lib)
     v = out.entries[0][key]
-    back = m.MergeCoAuthors(allow_inplace_modification=False).transform(out).entries[0][key]
+    back = mrg_mw.transform(out).entries[0][key]
     return v, back, out.entries[0]["title"]
 
 
